@@ -385,3 +385,61 @@ def c19(c):
     only_keys(c, ("c19",))
     c.partial = ["'unchanged state is a no-op' and 'doubling doubles everything' are monitored (protocol-check), not proved; open findings: BDF restart, Radau Newton start",
                  "Radau and BDF protocol: monitor only"]
+
+
+# ---------------------------------------------------------------------------------------------- C16 (LU)
+C16_THEOREMS = ["LU.c16_shape_errors", "LU.c16_shape_errors_complex", "LU.c16_n1", "LU.c16_n1_complex",
+                "LU.c16_n2_exact_partial", "LU.c16_n2_singular_iff", "LU.lu2_noswap", "LU.lu2_swap", "LU.lu2_singular"]
+
+
+def c16(c):
+    import re, subprocess
+    common_proof(c, "IvpModel.Props.C16", C16_THEOREMS)
+    # "the right-hand side is the only thing modified by a solve": the matrix arguments are shared references
+    src = open(os.path.join(REPO, "src", "matrix", "linear.rs")).read()
+    sigs = re.findall(r"pub fn (lin_solve(?:_complex)?)\s*(?:<[^>]*>)?\s*\(([^)]*)\)", src, re.S)
+    st = {"signatures": {}}
+    for name, args in sigs:
+        args1 = " ".join(args.split())
+        st["signatures"][name] = args1
+        mats = re.findall(r"(\w+)\s*:\s*&\s*(mut\s+)?Matrix", args1)
+        if not mats or any(m[1] for m in mats):
+            c.violation("static", "%s takes a matrix by mutable reference (or none at all): %s" % (name, args1),
+                        {"finding_key": "c16-mutates-matrix", "signature": args1, "theorem": "LU.solve is a function of (a, ip, b) only"}, False)
+    if len(sigs) != 2:
+        c.violation("static", "lin_solve / lin_solve_complex signatures not found in src/matrix/linear.rs", {"found": [s[0] for s in sigs]}, False)
+    c.monitors["solve_signatures"] = st
+    if c.build_harness() and c.build_driver():
+        cases = 300 if c.tier == "quick" else 6000
+        stt = c.stream("xlu", ["xlu", c.seed, cases, 1], "lu")
+        prefix = os.path.join(VERIF, ".work", "%s_%s" % (c.pid, "xlu"))
+        if os.path.exists(prefix + ".impl"):
+            t0 = time.time()
+            p = subprocess.run(["python3", os.path.join(VERIF, "bin", "lu_oracle.py"), prefix], capture_output=True, text=True, timeout=3000)
+            rows = [r for r in jlines(p.stdout) if r.get("kind") == "lu"]
+            bad = [r for r in rows if r.get("ok") is False]
+            hist = {}
+            for r in rows:
+                hist.setdefault("%s n=%s" % (r.get("op"), r.get("n")), 0)
+                hist["%s n=%s" % (r.get("op"), r.get("n"))] += 1
+            c.monitors["lu_oracle"] = {"cases": len(rows), "failures": len(bad), "s": round(time.time() - t0, 2),
+                                       "max_residual_over_bound": max([r.get("ratio", 0.0) for r in rows] or [0.0]),
+                                       "distribution": hist, "arithmetic": "exact rationals (python fractions)"}
+            if p.returncode != 0:
+                c.violation("harness-error", "lu_oracle.py failed", {"stderr": p.stderr[-800:]}, False)
+            seen = set()
+            for r in bad:
+                key = r.get("finding_key") or "c16"
+                if key in seen:
+                    continue
+                seen.add(key)
+                rep = dict(r)
+                rep["rerun"] = "harness xlu %s %s 1 <prefix> ; bin/lu_oracle.py <prefix>" % (c.seed, cases)
+                c.violation("implementation-vs-oracle", "lu_oracle: %s" % r.get("why", ""), rep, True)
+    c.cov["samples"] += [
+        {"theorem": "LU.c16_n2_exact_partial", "statement": "a·d − b·c ≠ 0 → decomp 2 2 2 #[a,b,c,d] = ok (F, ip) ∧ A·(solve 2 F ip #[b1,b2]) = (b1,b2) ∧ |F[2]| ≤ 1   (any ordered field)"},
+        {"theorem": "LU.c16_n2_singular_iff", "statement": "decomp 2 2 2 #[a,b,c,d] = error singular ↔ a·d − b·c = 0"},
+    ]
+    c.partial = ["exact-arithmetic correctness is a theorem for n ≤ 2 (real) and n = 1 (complex) only; n = 3..12 and complex n ≥ 2 are covered by executing the same model bit for bit beside the Rust routines (X-lu) plus the exact-rational oracle on those outputs",
+                 "the rounding-error bound c·n·eps·|A|·|x| is a statement about IEEE arithmetic: decided per input by the exact-rational oracle (normwise form, c = 64), not a theorem",
+                 "exactly singular matrices whose last pivot is a rounding residue are not required to be rejected (the property says 'exactly zero pivot column')"]
